@@ -17,6 +17,7 @@ def run(ctx):
     tbl = lambda f: "_table_" in f and not f.startswith("tsk_table_collection") and not f.startswith("tsk_table_sorter")
     S = lib_schema.all_families(ctx, P, funcs=tbl)
     lib_schema.getters(ctx, P, S)
+    lib_schema.subset_helpers(ctx, P)
     lib_mem.sizeof_elements(ctx, P, tus=["tables"], funcs=tbl)
     lib_module.array_flags(ctx, P, only=ms)
     lib_module.owned_arrays(ctx, P)
